@@ -37,6 +37,7 @@ NO_SEMANTICS = ["amoco.arch.ppc32.cpu"]
 SHORT = {n: n.replace("amoco.arch.", "").replace(".cpu_", ".").replace(".cpu", "") for n in CPUS}
 X86_PREFIXES = [0x66, 0x67, 0xF2, 0xF3, 0x2E, 0x36, 0x3E, 0x26, 0x64, 0x65, 0xF0]
 REX = list(range(0x40, 0x50))
+X86_WEIGHTED = [0x66, 0x66, 0x66, 0x67, 0x67, 0xF2, 0xF3, 0xF3]
 
 
 class HarnessTimeout(BaseException):
@@ -197,7 +198,8 @@ class Isa(object):
         if self.is_x86 and rnd.random() < 0.45:
             n = rnd.randrange(1, 4)
             pool = X86_PREFIXES + (REX if self.is_x64 else [])
-            pfx = bytes(pool[rnd.randrange(len(pool))] for _ in range(n))
+            # operand/address-size and rep prefixes change decoding and semantics most: favour them
+            pfx = bytes(X86_WEIGHTED[rnd.randrange(len(X86_WEIGHTED))] if rnd.random() < 0.6 else pool[rnd.randrange(len(pool))] for _ in range(n))
             if self.is_x64 and rnd.random() < 0.5:
                 # REX must be last to be effective
                 pfx = bytes(p for p in pfx if p not in REX) + bytes([REX[rnd.randrange(16)]])
